@@ -1008,6 +1008,8 @@ class Ambiguity:
         """
 
         self.update = True
+        self.model.pupdate = True
+        self.model.dupdate = True
         for arg in args:
             if arg.model is not self.model.pro_model:
                 raise ValueError('Constraints are not defined for the ' +
